@@ -165,6 +165,40 @@ EXTRA = {
     "C20": ("guard analysis of the merge in newlines_cleanup_dup; navigation check of the existing-newline tests; accessor agreement of level comparisons in the newline passes",
             "Every adjacent pair of newline chunks is merged; the newline adders look past virtual braces for an existing newline."),
 }
+# round-4 additions
+EXTRA4 = {
+    "C02": ("same-directive / no-PREPROC-scope-navigation facts for the brace hoists of the newline passes and for the 47 pair call sites",
+            "An open brace is never hoisted or pushed across a preprocessor line."),
+    "C04": ("the move-across-break obligations of C02; must-reset of the pending entry at every newline in sort_imports",
+            "Under default mod options the newline passes do not reorder tokens across directive lines; a sort entry is one physical line."),
+    "C06": ("null-chunk divergence with dominating non-null facts for the there-and-back idiom; unsigned-wrap obligations on every container .at() index; bounds of every tag pointer of the generated punctuator table against the extracted symbol tables; index bounds of every store into a fixed non-character array; who-may-call for the byte writers",
+            "A walk back from an untested forward navigation cannot hang; no .at() index can wrap; the punctuator table points only inside its symbol arrays; token stacks are bounded; nothing reaches the output before output_text(). (Six crashes / hangs of the pinned tree found this way or replayed from reports were repaired.)"),
+    "C07": ("guard analysis of Chunk::SafeToDeleteNl for both neighbours of a region line",
+            "No line break next to a line of a disabled region is deleted."),
+    "C08": ("who-may-ask for add_text's raw path", "Only CT_IGNORED chunks are written raw; every other text goes through add_char's CR/LF arms."),
+    "C09": ("census of libc calls that narrow their int argument (strchr family) with a code-point argument; census of byte-string entries of UncText fed from UTF-8 log text",
+            "No code point is handed to strchr() outside 1..127; UTF-8 bytes of a chunk are never stored back as code points."),
+    "C10": ("exit-edge analysis of the stdin read loop and shape of the single fread of load_mem_file",
+            "A short read or a read error is never taken for the end of the input."),
+    "C11": ("checked precondition (dominance of the per-file assignment over every decrement) for the excepted pass budget",
+            "The pass budget is set per file before it is spent."),
+    "C12": ("provenance of the selectors of every file-creating event below uncrustify_file up the call chain to main's rejected arguments",
+            "--check is rejected together with every argument that makes uncrustify_file create a file."),
+    "C13": ("result-test / length-test analysis of every snprintf that builds a file name; the input-read-complete rule of C10",
+            "No backup, md5 or output file name is used truncated; a prefix of the source is never accepted as the source."),
+    "C14": ("the names-not-truncated rule; failing-edge analysis of the md5 file's fopen/fclose",
+            "The backup and md5 names cannot collide; a failure to write the md5 file ends the run with a diagnostic."),
+    "C15": ("the number-whole-and-fits rule of C16", "A negated reference to another option loads as the negated value."),
+    "C16": ("guard facts of the strtol store (digits read, whole value, fits the type), type of every negation, guard of every strchr on a possibly empty value",
+            "An empty or over-long number is diagnosed and stores nothing."),
+    "C17": ("three-valued exploration of every tokenizer loop under `the character read is a line break` (CharTable and helper predicates folded); constant folding of the comment tab policy; who-may-set the blank-line column",
+            "No parser copies a line break into non-literal chunk text without dropping the blanks in front of it; comment indentation uses no tabs under indent_with_tabs=0; blank lines are padded only on request."),
+    "C19": ("form census of add_char's column updates against space_text's planner", "The writer counts one column per character, as the spacing planner does."),
+    "C20": ("receiver analysis of every blank_line_set on another newline than the one examined", "The eat_blanks veto is asked for every newline whose count is raised."),
+}
+for _p, (_t, _c) in EXTRA4.items():
+    tech, text = EXTRA[_p] if _p in EXTRA else ("", "")
+    EXTRA[_p] = ((tech + "; " if tech else "") + _t, (text + " " if text else "") + _c)
 for _p, (_t, _c) in EXTRA.items():
     tech, text, ref = CLAIMS[_p]
     CLAIMS[_p] = (tech + "; " + _t, text + " " + _c, ref)
